@@ -12,7 +12,7 @@ pub fn def() -> PropDef {
     PropDef {
         id: "C04",
         level: "exploration",
-        rule: "cases = (type T from a family of 46 concrete Rust types covering every Serde data-model category and the shape-ambiguous nestings -- Option<Option<T>>, Option<()>, Option<Vec<T>>, Vec<Option<T>>, newtype variant around seq/option/unit/tuple/box-of-self vs tuple variant, empty tuple/struct variants, 1-tuples, [T;0], maps with integer/char/string keys, enums inside maps inside structs --, value of T from a recursive generator with boundary integers, arbitrary Unicode strings, empty and long collections, route in {to_value/from_value, to_string/from_str, to_vec/from_slice, to_writer/from_reader}). non-trivial = one value taken through one route and compared on the Rust side; distinct = hash of (type, serialized text, route)",
+        rule: "cases = (type T from a family of 58 concrete Rust types (plus 9 borrowing targets such as &str, Vec<&str>, #[serde(borrow)] structs) covering every Serde data-model category and the shape-ambiguous nestings -- Option<Option<T>>, Option<()>, Option<Vec<T>>, Vec<Option<T>>, newtype variant around seq/option/unit/tuple/box-of-self vs tuple variant, empty tuple/struct variants, 1-tuples, [T;0], maps with integer/char/string keys, enums inside maps inside structs --, value of T from a recursive generator with boundary integers, arbitrary Unicode strings, empty and long collections, route in {to_value/from_value, to_string/from_str, to_vec/from_slice, to_writer/from_reader}). non-trivial = one value taken through one route and compared on the Rust side; distinct = hash of (type, serialized text, route)",
         assumptions: &["equality on the Rust side is ==, except floats: bit-exact through values (NaN included), C05 rule through text in the fast-float build", "serde_derive's generated impls are correct"],
         nofast_too: false,
         min_quick: 100_000,
@@ -104,11 +104,70 @@ pub fn run<T: Fam>(rep: &mut Report, rng: &mut Rng) {
     rep.count(&format!("type:{}", name));
 }
 
+#[derive(serde_derive::Serialize, serde_derive::Deserialize, Debug, PartialEq)]
+struct Borrowing<'a> {
+    #[serde(borrow)]
+    name: &'a str,
+    #[serde(borrow)]
+    raw: &'a serde_bytes::Bytes,
+    n: u8,
+}
+
+#[derive(serde_derive::Serialize, serde_derive::Deserialize, Debug, PartialEq)]
+enum BorrowingEnum<'a> {
+    #[serde(borrow)]
+    Text(&'a str),
+    Pair(&'a str, u8),
+}
+
+/// Zero-copy targets: from_value::<'a, T: Deserialize<'a>> must hand out borrows of the value.
+fn borrowed_targets(rep: &mut Report, rng: &mut Rng) {
+    let s1 = crate::gen::gen_string(rng, 10);
+    let s2 = crate::gen::gen_string(rng, 6);
+    let bytes = crate::gen::gen_bytes(rng, 8);
+    let n = rng.below(256) as u8;
+    macro_rules! rt {
+        ($name:expr, $x:expr, $t:ty) => {{
+            rep.eval();
+            let x: $t = $x;
+            match crate::mon::panics::guarded(|| serde_lexpr::to_value(&x).map_err(|e| e.to_string())) {
+                Ok(Ok(v)) => match serde_lexpr::from_value::<$t>(&v) {
+                    Ok(y) if y == x => {
+                        rep.distinct(hash2(hash_str($name), hash_str(&format!("{:?}", v))));
+                        rep.count(concat!("borrowed:", $name));
+                    }
+                    Ok(y) => rep.violation("borrowed", format!("C04:borrowed-differs:{}", $name), format!("{}: {:?} -> {} -> {:?}", $name, x, crate::props::common::dbg_value(&v), y), json!({"type": $name})),
+                    Err(e) => rep.violation("borrowed", format!("C04:borrowed-target-error:{}", $name), format!("{}: {:?} serializes to {} which does not deserialize into the borrowing target: {}", $name, x, crate::props::common::dbg_value(&v), e), json!({"type": $name})),
+                },
+                Ok(Err(e)) => rep.violation("borrowed", format!("C04:borrowed-to_value-error:{}", $name), e, json!({"type": $name})),
+                Err(p) => {
+                    if p.in_library() {
+                        rep.violation("borrowed", format!("C04:panic:{}", p.sig()), p.short(), json!({"type": $name}))
+                    } else {
+                        rep.inconclusive(format!("harness panic: {}", p.short()))
+                    }
+                }
+            }
+        }};
+    }
+    rt!("&str", s1.as_str(), &str);
+    rt!("(&str, u32)", (s1.as_str(), 7u32), (&str, u32));
+    rt!("Vec<&str>", vec![s1.as_str(), s2.as_str()], Vec<&str>);
+    rt!("Option<&str>", Some(s2.as_str()), Option<&str>);
+    rt!("BTreeMap<&str, i32>", [(s1.as_str(), 1), (s2.as_str(), -2)].into_iter().collect(), std::collections::BTreeMap<&str, i32>);
+    rt!("&serde_bytes::Bytes", serde_bytes::Bytes::new(&bytes[..]), &serde_bytes::Bytes);
+    rt!("Borrowing", Borrowing { name: s1.as_str(), raw: serde_bytes::Bytes::new(&bytes[..]), n }, Borrowing<'_>);
+    rt!("BorrowingEnum::Text", BorrowingEnum::Text(s2.as_str()), BorrowingEnum<'_>);
+    rt!("BorrowingEnum::Pair", BorrowingEnum::Pair(s1.as_str(), n), BorrowingEnum<'_>);
+}
+
 pub fn sets(ctx: &Ctx) -> Vec<CaseSet> {
     let fam = family();
     let n = fam.len() as u64;
     let per = ctx.size(6_000, 180_000);
-    vec![CaseSet::new(
+    vec![
+        CaseSet::new("borrowed-targets", ctx.size(2_000, 100_000), Box::new(move |rep, rng, _| borrowed_targets(rep, rng))),
+        CaseSet::new(
         "type-family-round-trips",
         n * per,
         Box::new(move |rep, rng, case| {
